@@ -68,6 +68,42 @@ def _strategy(draw):
     # all residues with the same name share the same definition object content
     for mt in spec["moltypes"]:
         mt["residues"] = [resdefs[r["resname"]] for r in mt["residues"]]
+    # two residues of different name may carry the same residue number (residues are told apart by number
+    # and name): every atom still takes the vector of its own residue
+    if len(resdefs) >= 2 and draw(st.integers(0, 2)) == 0:
+        names_ = sorted(resdefs)
+        a, b = names_[0], names_[1]
+        # two such end residues are attached to one residue of the first molecule type
+        mt0 = spec["moltypes"][0]
+        if len(mt0["residues"]) <= 6:
+            par = draw(st.integers(0, len(mt0["residues"]) - 1))
+            n0 = len(mt0["residues"])
+            mt0["residues"] = mt0["residues"] + [resdefs[a], resdefs[b]]
+            mt0["res_edges"] = mt0["res_edges"] + [[par, n0], [par, n0 + 1]]
+        for mt in spec["moltypes"]:
+            # only two end residues attached to the same residue share a number: the backmapper keeps its
+            # record of finished residues, and tells the two sides of an inter-residue bond apart, by number
+            # (other placements of a shared number end in a KeyError / UnboundLocalError on the pinned tree)
+            degree = {}
+            for u, v in mt["res_edges"]:
+                degree[u] = degree.get(u, 0) + 1
+                degree[v] = degree.get(v, 0) + 1
+            parent = {}
+            for u, v in mt["res_edges"]:
+                if degree.get(v) == 1:
+                    parent[v] = u
+                if degree.get(u) == 1:
+                    parent[u] = v
+            resids = [r + 1 for r in range(len(mt["residues"]))]
+            done = False
+            for i in range(len(resids)):
+                for j in range(i + 1, len(resids)):
+                    if not done and i in parent and j in parent and parent[i] == parent[j] and parent[i] < i \
+                            and {mt["residues"][i]["resname"], mt["residues"][j]["resname"]} == {a, b}:
+                        resids[j] = resids[i]
+                        done = True
+            mt["resids"] = resids
+        spec["shared_resids"] = True
     build = []
     templates = {}
     volumes = {}
@@ -202,4 +238,6 @@ def check(spec, ctx):
         ctx.label("backmap_only_residues")
     if n_chiral:
         ctx.label("chiral_residue")
+    if spec.get("shared_resids") and any(len(set(mt.get("resids", []))) < len(mt.get("resids", [])) for mt in spec["moltypes"]):
+        ctx.label("two_residues_one_number")
     ctx.nontrivial = n_chiral >= 1
